@@ -615,7 +615,7 @@ func runC04(c *ctx) {
 		c.parseCompare(p[0], "quotes")
 		c.parseCompare(p[1], "quotes")
 	}
-	for _, s := range []string{"a / b / c", "a /b/ c", "/b/", "a ~> /b/", "$f(/b/)", "[/b/, a / b]", "a = /b/", "(/b/)", "a / /b/", "a.and", "and", "or", "in", "and and and", "or.in", "a.or.b", "and.b", "{and: or}", "$.in", "in in in", "(and)", "[or]",
+	for _, s := range []string{"a / b / c", "a /b/ c", "/b/", "a ~> /b/", "$f(/b/)", "[/b/, a / b]", "a = /b/", "(/b/)", "a / /b/", "a^(b) / 2", "a^(b)/2/3", "a^(<b, >c) / d", "function($x){$x} / 2", "function($x){$x}/2/3", "|a|{}| / 2", "|a|{}, b|/2/3", "a^(b) ~> /x/", "$f(1) / 2", "a[0] / 2", "a{b: c} / 2", "a.and", "and", "or", "in", "and and and", "or.in", "a.or.b", "and.b", "{and: or}", "$.in", "in in in", "(and)", "[or]",
 		"a and b", "a or b", "a in b", "and or or", "a\tand\nb", "a  .  b", "a[ 0 ]", "a { b : c }", "a ^ ( b )", "$f ( 1 )", "a?b:c", "a ? b : c", "$v:=1", "$v := 1", "a~>b", "a ~> b", "a..b", "[1 .. 2]", "[1..2]", "a . . b"} {
 		c.parseCompare(s, "lexical")
 	}
